@@ -152,9 +152,6 @@ fn compute_block_facts<'ast, 'arena>(
             for &local in &op.reads {
                 note_use(&mut uses, &defs, local, local_start);
             }
-            for &local in &op.writes {
-                note_def(&mut defs, local, local_start);
-            }
 
             for &callee in &op.direct_callees {
                 let summary = &summaries[callee.0 as usize];
@@ -172,6 +169,13 @@ fn compute_block_facts<'ast, 'arena>(
                         note_def(&mut defs, local, local_start);
                     }
                 }
+            }
+
+            // The statement's own write happens after its operands, including the calls
+            // among them, have been evaluated, so it must not hide what those calls read
+            // (`x get f()` where `f` reads `x`). Same order as in `apply_op_transfer`.
+            for &local in &op.writes {
+                note_def(&mut defs, local, local_start);
             }
         }
 
